@@ -307,7 +307,10 @@ Definition chk_C08_step (before : list obs_alloc) (o : ostep) : bool :=
       end
   | _ => true
   end.
-Definition chk_C08 (c : rcase) : bool := all_steps chk_C08_step [] (rc_steps c).
+Definition chk_C08_bij (c : rcase) : bool := all_steps chk_C08_step [] (rc_steps c).
+(* "repeating an existing binding succeeds and refreshes it": a binding exists exactly until one channel timeout after the
+   last successful ChannelBind for it - the channel half of the C07 specification, recomputed from the responses alone *)
+Definition chk_C08 (c : rcase) : bool := chk_C08_bij c && chk_C07 c.
 
 (* ---------- C15: lifecycle callbacks balance against what exists ---------- *)
 Definition count_life (f : lifecycle -> bool) (acts : list action) : Z :=
